@@ -274,7 +274,7 @@ PROPS = {
         "design_ref": "§4, §7 C09",
         "technique": "deterministic simulation with a discrete-event clock: the real compio runtime timer wheel and driver on the simulated io_uring kernel; clock_gettime is interposed, an idle io_uring_enter jumps simulated time to the nearest deadline it was given; generated sets of sleeps, past deadlines, timeouts around sleeps, dropped sleeps, intervals and I/O, with kernel faults (early EINTR returns, lazy completions, tiny rings); earliness, lateness, timeout-side, drift and leftover-timer oracles; choice-sequence minimisation and replay",
         "tiers": {
-            "quick": {"runs": 1_600_000, "time_limit_s": 60},
+            "quick": {"runs": 6_000_000, "time_limit_s": 60},
             "thorough": {"runs": 200_000_000, "time_limit_s": 1500},
         },
         "rule": K_RULE,
